@@ -194,3 +194,52 @@ pub fn status_tree(n: &J) -> J {
     json!({"k": n["k"], "st": n["st"], "n": name, "vk": vk,
            "ch": J::Array(n["ch"].as_array().unwrap().iter().map(status_tree).collect())})
 }
+
+/// the complete status tree (Filter records and the children of value checks kept), nodes
+/// [k, st, n, vk, ch]: what C02's Explain walks
+pub fn raw_status_tree(rec: &J) -> Option<J> {
+    let cont = rec.get("container")?;
+    let (kind, payload) = cont.as_object()?.iter().next()?;
+    let kids: Vec<J> = rec["children"].as_array().map(|a| a.iter().filter_map(raw_status_tree).collect()).unwrap_or_default();
+    let (k, st, n, vk) = match kind.as_str() {
+        "FileCheck" => ("File", status_of(payload), json!(""), json!("")),
+        "RuleCheck" => ("Rule", status_of(payload), payload["name"].clone(), json!("")),
+        "RuleCondition" => ("RuleCond", status_of(payload), json!(""), json!("")),
+        "TypeCheck" => ("TypeCheck", status_of(payload), payload["type_name"].clone(), json!("")),
+        "TypeCondition" => ("TypeCond", status_of(payload), json!(""), json!("")),
+        "TypeBlock" => ("TypeBlock", status_of(payload), json!(""), json!("")),
+        "Filter" => ("Filter", status_of(payload), json!(""), json!("")),
+        "WhenCheck" => ("When", status_of(payload), json!(""), json!("")),
+        "WhenCondition" => ("WhenCond", status_of(payload), json!(""), json!("")),
+        "Disjunction" => ("Disj", status_of(payload), json!(""), json!("")),
+        "BlockGuardCheck" => ("Block", status_of(payload), json!(""), json!("")),
+        "GuardClauseBlockCheck" => ("Clause", status_of(payload), json!(""), json!("")),
+        "ClauseValueCheck" => {
+            if let Some(s) = payload.as_str() {
+                ("Value", json!("PASS"), json!(""), json!(s))
+            } else {
+                let (vk, _) = payload.as_object()?.iter().next()?;
+                ("Value", json!("FAIL"), json!(""), json!(vk))
+            }
+        }
+        _ => ("?", json!("?"), json!(""), json!("")),
+    };
+    Some(json!({"k":k,"st":st,"n":n,"vk":vk,"ch":kids}))
+}
+
+/// like `observe`, plus obs.rtree (the raw status tree)
+pub fn observe_with_rtree(rules: &str, data: &str) -> J {
+    let mut obs = observe(rules, data, false);
+    if obs["kind"] == "ok" {
+        if let Ok(Ok(s)) = run_checks_raw(rules, data, true) {
+            if let Ok(rec) = serde_json::from_str::<J>(&s) {
+                if let Some(t) = raw_status_tree(&rec) {
+                    obs["rtree"] = t;
+                }
+            }
+        }
+        let t = status_tree(&obs["tree"]);
+        obs["tree"] = t;
+    }
+    obs
+}
